@@ -154,9 +154,40 @@ func helperEdgeMeets(rq edgeReq, cond ssa.Value, pol bool, depth int) bool {
 				continue
 			}
 		}
-		any = true
+		// the outcome itself states facts: `return a || b` yielding false means !a and !b (short-circuit value
+		// decomposed), on top of what dominates the return
+		if outcome == 1 {
+			met := false
+			facts := expandGuards(append(guardsOfRaw(ret.Block()), Guard{Cond: res[0], Pol: pol}))
+			for _, fct := range facts {
+				fct = fct.norm()
+				if inner.match(fct.Cond, fct.Pol) {
+					met = true
+				}
+			}
+			if met {
+				any = true
+				continue
+			}
+		}
 		target := ret
+		saved := pathTargetHook
+		pathTargetHook = nil
+		if outcome == 1 {
+			if ph, isPhi := res[0].(*ssa.Phi); isPhi {
+				pathTargetHook = func(in ssa.Instruction, phiConst func(*ssa.Phi) (int64, bool)) bool {
+					if v, has := phiConst(ph); has {
+						return (v != 0) == pol
+					}
+					return true
+				}
+			}
+		}
 		miss, reached := pathsMissingAt(h.Blocks[0], 0, -1, func(in ssa.Instruction) bool { return in == ssa.Instruction(target) }, nil, []edgeReq{inner}, nil)
+		pathTargetHook = saved
+		if reached > 0 {
+			any = true
+		}
 		if reached > 0 && len(miss) > 0 {
 			return false
 		}
@@ -164,6 +195,10 @@ func helperEdgeMeets(rq edgeReq, cond ssa.Value, pol bool, depth int) bool {
 	helperEdgeMemo[key] = any
 	return any
 }
+
+// pathTargetHook, when set, lets the caller reject a target on the current path using the constants the path gave to
+// phis (a return of `a || b` reached through the a-true edge yields true whatever b is).
+var pathTargetHook func(in ssa.Instruction, phiConst func(*ssa.Phi) (int64, bool)) bool
 
 // pathsProg is the program under analysis (for nilness queries made by the explorer).
 var pathsProg *Prog
@@ -234,6 +269,12 @@ func pathsMissingAt(startBlock *ssa.BasicBlock, startIdx int, startEdge int, isT
 					if _, isC := ph.Edges[idx].(*ssa.Const); isC {
 						out[ph] = k
 					}
+				} else if bv, isb := constBool(ph.Edges[idx]); isb {
+					// boolean short-circuit values: a || b is phi(true, b)
+					out[ph] = 0
+					if bv {
+						out[ph] = 1
+					}
 				} else if p2, isP := ph.Edges[idx].(*ssa.Phi); isP {
 					if v, has := c[p2]; has {
 						out[ph] = v
@@ -247,6 +288,12 @@ func pathsMissingAt(startBlock *ssa.BasicBlock, startIdx int, startEdge int, isT
 		return out
 	}
 	evalCond := func(cond ssa.Value, c consts) (bool, bool) { // (value, known)
+		if ph, isPhi := cond.(*ssa.Phi); isPhi {
+			if v, has := c[ph]; has {
+				return v != 0, true
+			}
+			return false, false
+		}
 		bo, ok := cond.(*ssa.BinOp)
 		if !ok {
 			return false, false
@@ -311,6 +358,9 @@ func pathsMissingAt(startBlock *ssa.BasicBlock, startIdx int, startEdge int, isT
 		for i := idx; i < len(b.Instrs); i++ {
 			in := b.Instrs[i]
 			if isTarget(in) {
+				if pathTargetHook != nil && !pathTargetHook(in, func(ph *ssa.Phi) (int64, bool) { v, has := c[ph]; return v, has }) {
+					return // this path cannot produce the outcome the caller asks about
+				}
 				reached++
 				if mask != full {
 					for k, rq := range reqs {
